@@ -31,6 +31,10 @@ Proof.
   dst s. unfold w_init; simpl. destruct al, sy; simpl; try reflexivity; destruct (w_keep c); simpl; reflexivity.
 Qed.
 
+(* ---- corner: a configuration rejected by reb_integrator_whfast_init: synchronize and part1 return at once *)
+Lemma w_rejected_inert : forall c s, w_init_ok c = false -> w_sync c s = s /\ w_part1 c s = s.
+Proof. intros c s h. unfold Model.w_sync, Model.w_part1. rewrite h. split; reflexivity. Qed.
+
 (* ---- (b) keep_unsynchronized: inserted calls are invisible *)
 Definition Rk (x y : wst) : Prop :=
   pjh x = pjh y /\ is_sync x = is_sync y /\ recalc (w_init x) = recalc (w_init y) /\
